@@ -2,7 +2,7 @@
    Models: Spec/Zone.v (zoneinfo's view of a tz-database zone), Model/TzConvert.v (Timezone.convert, DateTime.create).
    Every theorem holds for EVERY well-formed zone table and every wall value (no bound on instants or zones). *)
 From Coq Require Import ZArith Bool.
-From PV Require Import Lib.PyBase Spec.Cal Spec.Zone Proofs.ZoneFacts Model.TzConvert Proofs.C02Facts.
+From PV Require Import Lib.PyBase Spec.Cal Spec.Zone Proofs.ZoneFacts Proofs.ZoneWindow Model.TzConvert Proofs.C02Facts.
 Open Scope Z_scope.
 
 (* PEP 495: every wall second is exactly one of unique / repeated (two instants, fold tells them apart) / skipped (no instant) *)
@@ -62,3 +62,18 @@ Theorem nonvacuous_paris_2013 : let z := mkzone 3600 (cons (1364691600, 7200) (c
   wf2_zone z = true /\ wall_skipped z (1364691600 + 3600 + 1800) /\ wall_repeated z (1382835600 + 3600 + 1800).
 Proof. exact paris_2013. Qed.
 Print Assumptions nonvacuous_paris_2013.
+
+(* lookups depend only on the transitions near the queried instant: the harness may feed the model a window of the real table *)
+Theorem zone_window_irrelevance : forall init pre mid post u w f,
+  passed_utc pre u -> before_first post u ->
+  passed_local init pre w f -> before_first_local (last_off (last_off init pre) mid) post w f ->
+  off_utc_l init (pre ++ mid ++ post) u = off_utc_l (last_off init pre) mid u /\
+  off_local_l init (pre ++ mid ++ post) w f = off_local_l (last_off init pre) mid w f.
+Proof. exact window_irrelevance. Qed.
+Print Assumptions zone_window_irrelevance.
+
+Theorem zone_window_irrelevance_fold : forall init pre mid post u acc,
+  pre <> nil -> passed_fold init pre u -> before_first post u ->
+  fold_utc_l init (pre ++ mid ++ post) u acc = fold_utc_l (last_off init pre) mid u false.
+Proof. exact window_irrelevance_fold. Qed.
+Print Assumptions zone_window_irrelevance_fold.
